@@ -100,6 +100,10 @@ static char * pipecmd_format_arg (pipecmd_t e, const char *arg)
     while (*p != '\0') {
         if (*p == '%') {
             p++;
+            if (*p == '\0') {   /* lone '%' at end of arg: keep it, stop here */
+                xstrcatchar (&str, '%');
+                break;
+            }
             switch (*p) {
                 case 'h' : /* '%n' => target name */
                     xstrcat (&str, e->target);
